@@ -187,12 +187,13 @@ NumHash(g) == IF g.kind = "pi" THEN 4 ELSE 0
 
 In(w, dom, n) == [w |-> w, dom |-> dom, n |-> n]
 \* generator inputs: wire, admissible values ("any", "bool", "nz" = non-zero, "lt" = 0..n-1,
+\* "ltpow" = 0..b^n-1 for the gate's base b,
 \* "lut" = an input of the lookup table)
 InputSpec(g) ==
   CASE g.kind = "arith" -> FlatMapN(LAMBDA i : <<In(4*(i-1), "any", 0), In(4*(i-1)+1, "any", 0), In(4*(i-1)+2, "any", 0)>>, g.n)
     [] g.kind = "arithext" -> FlatMapN(LAMBDA i : MapN(LAMBDA j : In(4*D*(i-1) + j - 1, "any", 0), 3 * D), g.n)
     [] g.kind = "mulext" -> FlatMapN(LAMBDA i : MapN(LAMBDA j : In(3*D*(i-1) + j - 1, "any", 0), 2 * D), g.n)
-    [] g.kind = "basesum" -> <<In(0, "lt", IPow(g.b, g.l))>>
+    [] g.kind = "basesum" -> <<In(0, "ltpow", g.l)>>          \* 0 .. b^l - 1
     [] g.kind = "expo" -> <<In(0, "any", 0)>> \o MapN(LAMBDA i : In(i, "bool", 0), g.n)
     [] g.kind = "ra" -> FlatMapN(LAMBDA c : <<In(RaStride(g)*(c-1), "lt", RaVs(g))>>
                                    \o MapN(LAMBDA i : In(RaStride(g)*(c-1) + 1 + i, "any", 0), RaVs(g)), g.copies)
